@@ -6,6 +6,7 @@ CONSTANTS
   MaxChan = 3
   Labels = {1, 2}
   Chans = {0, 2}
+  Edits = FALSE
   AutoRule = "len"
 INVARIANT InvConforms
 INVARIANT InvAligned
